@@ -698,7 +698,10 @@ def run_histories(chk, world, n_hist, baseline, d):
     # fixed histories first: the same gene with two DIFFERENT samples one after the other (state kept per class / module instead of per
     # object shows here: the second sample inherits what the first one left), both orders, and a repeat with another gene in between
     fixed = [["genotype:A:s1:aldy", "genotype:A:s2:aldy", "genotype:A:s1:aldy"], ["genotype:A:s2:aldy", "genotype:A:s1:aldy"],
-             ["genotype:B:s1:simple", "genotype:B:s2:simple", "genotype:A:s1:simple", "genotype:B:s1:simple"]]
+             ["genotype:B:s1:simple", "genotype:B:s2:simple", "genotype:A:s1:simple", "genotype:B:s1:simple"],
+             # an earlier call on the same database under a profile alias that switches copy-number calling off (exome / wes): whatever
+             # that call does, the next ordinary call must be the fresh-process call
+             ["alias:A:s1:aldy:exome", "genotype:A:s1:aldy"], ["genotype:A:s2:aldy", "alias:A:s2:aldy:wes", "genotype:A:s2:aldy", "genotype:B:s1:simple"]]
     # two different samples of one gene loaded one after the other, both orders: what the second Sample holds must be what a fresh
     # process loads for it
     for order in (("s1", "s2"), ("s2", "s1"), ("s1", "s1")):
@@ -723,6 +726,13 @@ def run_histories(chk, world, n_hist, baseline, d):
             chk.count("history-ops", op.split(":")[0] + ":" + op.split(":")[1])
             chk.case("history-op", {"world": world.seed, "prefix": history[:k + 1]}, nontrivial=True)
             case = {"world_seed": world.seed, "history": history, "step": k}
+            if op.startswith("alias:"):
+                _, gk, smp, fmt, alias = op.split(":")
+                try:
+                    run_genotype_job(dict(world.job([gk], smp, fmt), profile=alias), d)      # outcome irrelevant: only a history
+                except Exception:   # noqa
+                    pass
+                continue
             if op.startswith("genotype:") or op.startswith("multi:"):
                 job = op_job(world, op)
                 val = run_genotype_job(job, d)
